@@ -49,7 +49,8 @@ Clauses(r) ==
          << <<"NoTailTruncation", r.tail <= 100000>>,         \* at most 1e-4 of the conditional mass cut off
             <<"ConditionalSampleFollowsLaw", r.sampled => DKW(r.ks4, r.n)>>,
             <<"ConditionalCdfMatches", r.sampled => DKW(r.cdf4, r.ncdf)>>,
-            <<"ConditionalIcdfMatches", r.sampled => DKW(r.icdf4, r.nicdf)>> >>
+            <<"ConditionalIcdfMatches", r.sampled => DKW(r.icdf4, r.nicdf)>>,
+            <<"IntegerInputSameAsFloat", r.intsame>> >>
     [] r.kind = "iform" ->
          << <<"PointCount", Len(r.d0) = r.npoints /\ Len(r.d1) = r.npoints>>,
             <<"MarginalQuantile", \A i \in 1..Len(r.d0) : DKW(r.d0[i], r.n0)>>,
